@@ -90,16 +90,16 @@ func (d *wrappedSlidingWindowDetector) Check(seq uint64) (func() bool, bool) {
 		// Exceeded upper limit.
 		return nop, false
 	}
+	latestSeq := d.latestSeq
 	if !d.init {
 		if seq != 0 {
-			d.latestSeq = seq - 1
+			latestSeq = seq - 1
 		} else {
-			d.latestSeq = d.maxSeq
+			latestSeq = d.maxSeq
 		}
-		d.init = true
 	}
 
-	diff := int64(d.latestSeq) - int64(seq) //nolint:gosec // GG115 TODO check
+	diff := int64(latestSeq) - int64(seq) //nolint:gosec // GG115 TODO check
 	// Wrap the number.
 	if diff > int64(d.maxSeq)/2 { //nolint:gosec // GG115 TODO check
 		diff -= int64(d.maxSeq + 1) //nolint:gosec // GG115 TODO check
@@ -120,6 +120,11 @@ func (d *wrappedSlidingWindowDetector) Check(seq uint64) (func() bool, bool) {
 
 	return func() bool {
 		latest := false
+		if !d.init {
+			// Position the window only once a packet is really accepted.
+			d.latestSeq = latestSeq
+			d.init = true
+		}
 		pos := diff
 		if diff < 0 {
 			// Update the head of the window.
